@@ -12,9 +12,9 @@ XH = "CrossHair 0.0.110 (z3) symbolic execution of the real functions, per-condi
 CHECKS = {
     "C10": dict(
         engine="symx+z3",
-        technique="bounded symbolic execution of the real extract_iter (symx/z3: all paths over shape x hook-result choices, symbolic repeat count vs. the 100-step guard); oracle = two reference interpreters + metamorphic obligations",
-        text="Every feasible path of driver+real extract_iter over 16 tree shapes x sequence kinds x 8 elaborate results per frame (x inserted frames' own results) is explored with z3 deciding each branch; the 100-step guard is checked for all n in 0..130 by solver case-split. Holds within that bound; says nothing about larger trees.",
-        note="Hooks are deterministic; verdict vs references only where the flat and the scope reading of the docs agree (others counted ambiguous_skipped); metamorphic obligations M1-M3 on all inputs. Trusted: z3, symx, the reference interpreters in harness/itemdrv.py.",
+        technique="bounded symbolic execution of the real extract_iter (symx/z3: all paths over shape x hook-result choices, symbolic repeat count vs. the 100-step guard); oracle = depth-based reference interpretation (decides every input) cross-checked by two loose readings + metamorphic obligations",
+        text="Every feasible path of driver+real extract_iter over 18 tree shapes x sequence kinds x 8 elaborate results per frame (x inserted frames' own results) is explored with z3 deciding each branch; the 100-step guard is checked for all n in 0..130 by solver case-split. Holds within that bound; says nothing about larger trees.",
+        note="Hooks are deterministic; the depth-based reference (items carry their unwrapping depth; a prune/replacement at depth d removes the following items at depth >= d, nothing shallower) decides every input; the flat and scope readings of the docs are kept as a cross-check where they agree; metamorphic obligations M1-M3 on all inputs. Trusted: z3, symx, the reference interpreters in harness/itemdrv.py.",
         ref="DESIGN.md 5.C10",
     ),
 }
@@ -46,8 +46,8 @@ CHECKS["C11"] = dict(
 CHECKS["C17"] = dict(
     engine="symx+z3",
     technique="bounded symbolic execution (symx/z3) of the real add_glue_as_needed/builtin_glue over solver-enumerated sys.modules histories with an exactly-once/in-time/module-beats-built-in monitor",
-    text="All histories of 4 (thorough 5) operations (add, remove, re-add same object, fresh object under a removed name, extract, built-in registration after the library import) over 2 (3) module names x 7 glue kinds incl. raising glue, each closed by an extract, run through the real extract(); monitor checked after every extract. Single-threaded histories and fault kinds only.",
-    note="_glue.sys is rebound to a private namespace with a harness-owned modules dict (replay uses the real sys.modules). The 2-4 thread schedules of the property are outside the bound (would need source hooks + a scheduler). Known finding F4 (len fast path) is reported as KNOWN-FINDING.",
+    text="All histories of 4 (thorough 5) operations (add, remove, re-add same object, fresh object under a removed name, extract, built-in registration after the library import) over 2 (3) module names x 7 glue kinds incl. raising glue, each closed by an extract, run through the real extract(); monitor checked after every extract. Plus a two/three-thread leg forced through a blocking glue call (thread 1 is inside a glue function while the others start extracting).",
+    note="_glue.sys is rebound to a private namespace with a harness-owned modules dict (replay uses the real sys.modules). Thread schedules at the other preemption points of the routine are outside the bound (would need source hooks + a scheduler). Known finding F4 (len fast path) is reported as KNOWN-FINDING.",
     ref="DESIGN.md 5.C17",
 )
 
@@ -96,6 +96,14 @@ CHECKS["C02"] = dict(
     text="For every code object of the running-frame corpus (plain functions, generators, coroutines, async generators; quick ~830, thorough ~6500) and every reachable CALL / BEFORE_WITH / WITH_EXCEPT_START / SEND at each measured resting offset: a manager whose __enter__/__aenter__ is running is not listed, one whose __exit__/__aexit__ is running is listed last with is_exiting and obj set, everything else exact. CPython 3.12 only.",
     note="Resting offsets are measured by real probes in the run and every real probe must rest at a tabled offset (else exit 2); the abstract interpreter is validated against the event log at every real probe. F2 sites reported as KNOWN-FINDING. Counterexamples are replayed with probes calling the real analysis on the really running frame.",
     ref="DESIGN.md 5.C02",
+)
+
+CHECKS["C03"] = dict(
+    engine="symx+z3",
+    technique="bounded symbolic execution (symx/z3) of the real extract and built-in unwrappers over solver-enumerated link kinds per chain position; oracle = traceback of an exception thrown into the same object",
+    text="All chains of depth 0..3 (thorough 4) over 9 await link kinds (native coroutine, @types.coroutine, __await__ returning a coroutine wrapper / a generator, async-generator asend / __anext__ / async for / athrow / aclose) or 2 yield-from kinds, trap or plain-iterator terminal, coroutine / generator / async-generator roots, with and without a completed await before the suspension: frames (identity and line numbers) equal the traceback of a thrown exception, leaf/root/exhaustion/with_contexts as stated.",
+    note="LOW SOLVER LEVERAGE: no branch of the implementation depends on a number here; the solver enumerates a finite product and certifies it complete. async_generator backport links are outside.",
+    ref="DESIGN.md 5.C03",
 )
 
 NOT_APPLICABLE = {
